@@ -32,6 +32,13 @@ pub trait RecursiveAir<F: Field, EF: ExtensionField<F>, LG: LookupProtocol> {
     /// This corresponds to the width of the trace matrix.
     fn width(&self) -> usize;
 
+    /// Returns the number of public values the AIR's constraints read.
+    ///
+    /// The verifier entry points reject a public-value list of any other length before the
+    /// constraints are compiled, since the compiler indexes it by the AIR's public-value
+    /// variables.
+    fn num_public_values(&self) -> usize;
+
     /// Returns the number of periodic columns the AIR declares.
     fn num_periodic_columns(&self) -> usize;
 
@@ -116,6 +123,10 @@ where
 {
     fn width(&self) -> usize {
         Self::width(self)
+    }
+
+    fn num_public_values(&self) -> usize {
+        p3_air::BaseAir::<F>::num_public_values(self)
     }
 
     fn num_periodic_columns(&self) -> usize {
